@@ -882,6 +882,8 @@ class Interp:
             return True
         if isinstance(v, FactorDict):
             return self.atom(f"nonempty:factors({self._fd_str(v)})")
+        if type(v).__name__ in ("MatchObj", "Regex") and type(v).__module__.endswith("regex"):
+            return True
         raise Unsupported(f"truthiness of {v!r} at {self.site}")
 
     def atom(self, key: str) -> bool:
@@ -1385,7 +1387,95 @@ class Interp:
             a = self.to_term(args[0])
             if a is not None:
                 return Num(("fn", "factorial", a))
+        if path in ("re.compile", "re.match", "re.fullmatch", "re.search"):
+            from .regex import RegexUnsupported, get_regex
+            pat = args[0] if args else kwargs.get("pattern")
+            if path == "re.compile":
+                flags = args[1] if len(args) > 1 else kwargs.get("flags", 0)
+            else:
+                flags = args[2] if len(args) > 2 else kwargs.get("flags", 0)
+            if isinstance(pat, str) and isinstance(flags, int):
+                try:
+                    rx = get_regex(pat, int(flags))
+                except RegexUnsupported as e:
+                    raise Unsupported(f"regular expression {pat!r}: {e} at {self.site}")
+                if path == "re.compile":
+                    return rx
+                return self._regex_call(rx, path[3:], [args[1] if len(args) > 1 else kwargs.get("string")], {})
+        if path.startswith("re.") and path[3:].isupper():
+            import re as _re
+            if hasattr(_re, path[3:]):
+                return int(getattr(_re, path[3:]))
         raise Unsupported(f"external call {path} at {self.site}")
+
+    # ------------------------------------------------------------------ regular expressions over symbolic strings
+    def _regex_call(self, rx, method: str, args, kwargs):
+        from .regex import MatchObj, RegexUnsupported
+        subject = args[0] if args else kwargs.get("string")
+        ss = self._as_symstr(subject)
+        if ss is None:
+            raise Unsupported(f"regex {method} on {subject!r} at {self.site}")
+        items = ss.items
+        pos = args[1] if len(args) > 1 else kwargs.get("pos", 0)
+        endpos = args[2] if len(args) > 2 else kwargs.get("endpos")
+        if not isinstance(pos, int) or not (endpos is None or isinstance(endpos, int)):
+            raise Unsupported(f"regex {method} with abstract position at {self.site}")
+        pos = max(0, min(pos, len(items)))
+
+        def tester(i, pred, label):
+            x = items[i]
+            if isinstance(x, str):
+                return bool(pred(x))
+            if isinstance(x, SymChar):
+                return self.char_test(x, pred, f"ch{x.cid} matches {label}")
+            if isinstance(x, FinExpr):
+                return self.char_test(SymChar(x.cid), lambda m, f=x.fn: pred(f(m)), f"{x.desc} matches {label}")
+            raise Unsupported(f"regex over {x!r} at {self.site}")
+        try:
+            if method in ("match", "fullmatch"):
+                r = rx.run(len(items), pos, tester, full=(method == "fullmatch"), endpos=endpos)
+                start = pos
+            elif method == "search":
+                r = None
+                start = pos
+                for start in range(pos, len(items) + 1):
+                    r = rx.run(len(items), start, tester, endpos=endpos)
+                    if r is not None:
+                        break
+            else:
+                raise Unsupported(f"regex method {method} at {self.site}")
+        except RegexUnsupported as e:
+            raise Unsupported(f"regular expression {rx.pattern!r}: {e} at {self.site}")
+        if r is None:
+            return None
+        return MatchObj(rx, items, start, r[0], r[1])
+
+    def _match_call(self, m, method: str, args):
+        def text(span):
+            if span is None:
+                return None
+            part = m.subject[span[0]:span[1]]
+            return "".join(part) if all(isinstance(x, str) for x in part) else SymStr(tuple(part))
+        if method == "group":
+            ks = args or [0]
+            if not all(isinstance(k, int) for k in ks):
+                raise Unsupported(f"named / abstract group at {self.site}")
+            try:
+                vals = [text(m.span(k)) for k in ks]
+            except IndexError:
+                raise AbsRaise("IndexError", self.site, "no such group")
+            return vals[0] if len(vals) == 1 else Tup(tuple(vals))
+        if method == "groups":
+            return Tup(tuple(text(sp) for sp in m.spans[1:]))
+        if method in ("start", "end", "span"):
+            k = args[0] if args else 0
+            try:
+                sp = m.span(k)
+            except IndexError:
+                raise AbsRaise("IndexError", self.site, "no such group")
+            sp = sp or (-1, -1)
+            return sp[0] if method == "start" else (sp[1] if method == "end" else Tup(sp))
+        raise Unsupported(f"match method {method} at {self.site}")
 
     # ------------------------------------------------------------------ attribute access
     def getattr_(self, obj, attr: str, default=_MISSING, probe: bool = False):
@@ -1496,6 +1586,14 @@ class Interp:
                                                  "isspace", "isdigit", "isalpha", "find", "count", "casefold",
                                                  "title", "swapcase", "capitalize"):
                 return Bound(obj, _StrMethod("concrete:" + attr))
+        if type(obj).__name__ == "Regex" and type(obj).__module__.endswith("regex"):
+            if attr in ("match", "fullmatch", "search"):
+                return Bound(obj, _StrMethod("re:" + attr))
+            if attr in ("pattern", "flags", "groups"):
+                return getattr(obj, attr)
+        if type(obj).__name__ == "MatchObj" and type(obj).__module__.endswith("regex"):
+            if attr in ("group", "groups", "start", "end", "span"):
+                return Bound(obj, _StrMethod("match:" + attr))
         if isinstance(obj, (SymStr, SymChar)) and attr in ("startswith", "endswith", "lower", "upper", "casefold"):
             return Bound(obj, _StrMethod("sym:" + attr))
         if isinstance(obj, FactorDict):
@@ -2333,6 +2431,10 @@ Interp.call_function = _call_function  # type: ignore
 def _call_builtin_method(self: Interp, info, args, kwargs):
     obj, rest = args[0], args[1:]
     n = info.name
+    if n.startswith("re:"):
+        return self._regex_call(obj, n[3:], list(rest), kwargs)
+    if n.startswith("match:"):
+        return self._match_call(obj, n[6:], list(rest))
     if isinstance(obj, (SymStr, SymChar)) and n in ("sym:lower", "sym:upper", "sym:casefold"):
         fn = getattr(str, n[4:])
         out = []
